@@ -787,7 +787,7 @@ def gen_cases(rng, n, arrays_every=4, tags=None):
                 continue
             c = c[:4] + (pre,)
             tags["settings unrelated to units in force at the judged print"] += 1
-        if rng.random() < 0.05:
+        if rng.random() < 0.05 and tags["case starts a new process"] < max(100, n // 10):
             # the case starts a NEW PROCESS (no reset of the harness before it): run in a fork of a
             # fresh interpreter as well (state the library sets up at import time)
             c = c[:4] + ([["fresh"]] + [list(st) for st in c[4]],)
